@@ -33,7 +33,7 @@ ASSUMPTIONS = ['equality of results is NaN-aware deep equality; traces are compa
                'a defect present in every process is invisible here (it belongs to the other properties)']
 MIN_OBS = {'histories_compared': 40, 'histories_with_aborted_session': 10, 'probes_with_trades': 8, 'argument_checks': 400, 'probe_argument_objects_reused': 15, 'third_call_checks': 8,
            'repeat_call_checks': 10, 'dimension:exchange_name': 4, 'dimension:type_same_name': 4, 'dimension:leverage': 4,
-           'dimension:fee': 3, 'dimension:warmup': 4, 'dimension:routes': 4, 'dimension:simulator': 4}
+           'dimension:fee': 3, 'dimension:warmup': 4, 'dimension:routes': 4, 'dimension:simulator': 4, 'dimension:options': 3}
 SHARD_TIMEOUT = 600
 JOB_TIMEOUT = 300
 OTHER_NAMES = ['Bybit USDT Perpetual', 'Binance Spot', 'Binance Perpetual Futures']
@@ -52,16 +52,22 @@ def _probe_spec(rng, klass):
         sc.update(p_enter=0.3, observe='digest', use_shared=True, use_indicator=230, sl=sc['sl'] or 0.01, tp=sc['tp'] or 0.01)
     spec['no_isolate'] = True
     spec['exchange'] = rng.choice(['Sandbox', 'Sandbox', OTHER_NAMES[0] if not spot else OTHER_NAMES[1]])
+    if rng.random() < 0.35:
+        spec['options'] = {'generate_equity_curve': True, 'generate_hyperparameters': True}
     return spec
 
 
-def _history(rng, probe, n):
-    """earlier calls: mutations of the probe along chosen dimensions"""
+DIMS = ['exchange_name', 'type_same_name', 'leverage', 'fee', 'warmup', 'routes', 'simulator', 'abort_hook',
+        'abort_reject', 'abort_failpoint', 'balance', 'mode', 'options']
+
+
+def _history(rng, probe, n, first_dim=None):
+    """earlier calls: mutations of the probe along chosen dimensions (the first one can be prescribed: stratified coverage)"""
     hist, dims = [], set()
     for i in range(n):
         h = copy.deepcopy(probe)
-        k = rng.choice(['exchange_name', 'type_same_name', 'leverage', 'fee', 'warmup', 'routes', 'simulator', 'abort_hook',
-                        'abort_reject', 'abort_failpoint', 'balance', 'mode'])
+        k = first_dim if (i == 0 and first_dim) else rng.choice(['exchange_name', 'type_same_name', 'leverage', 'fee', 'warmup', 'routes', 'simulator', 'abort_hook',
+                        'abort_reject', 'abort_failpoint', 'balance', 'mode', 'options'])
         dims.add(k)
         cfg = h['config']
         if k == 'exchange_name':
@@ -108,6 +114,10 @@ def _history(rng, probe, n):
                 r['script']['entry'] = 'market'
         elif k == 'abort_failpoint':
             h['failpoint'] = {'after_lines': rng.randint(200, 60000)}
+        elif k == 'options':
+            # optional outputs of an earlier call (generate_logs switches the debug mode on; log files go to the scratch cwd)
+            h['options'] = {o: True for o in rng.sample(['generate_logs', 'generate_equity_curve', 'generate_hyperparameters',
+                                                         'generate_json', 'generate_csv', 'generate_tradingview'], rng.randint(1, 3))}
         for s in h['candles'].values():
             s['seed'] = rng.randrange(1 << 30)
         for r in h['routes']:
@@ -254,6 +264,20 @@ def _run(spec, held=None, label='', prepared=None):
 
 
 def run_job(job):
+    import os
+    import tempfile
+    # optional outputs (logs, json, csv) are written relative to the working directory: use a scratch one outside the trees
+    scratch = tempfile.mkdtemp(prefix='vf-c11-')
+    os.chdir(scratch)
+    try:
+        return _run_job(job)
+    finally:
+        os.chdir('/')
+        import shutil
+        shutil.rmtree(scratch, ignore_errors=True)
+
+
+def _run_job(job):
     probe = job['probe']
     cnt, viol = {}, []
     info = {'kind': job['kind'], 'pid': job['pid']}
@@ -373,7 +397,7 @@ def make_jobs(tier, seed):
         then, _ = _history(rng, probe, 1)
         jobs.append({'kind': 'fresh', 'pid': p, 'klass': klass, 'probe': probe, 'repeat': True, 'then': then[0]})
         for hcount in range(5 if tier == 'quick' else 8):
-            hist, dims = _history(rng, probe, rng.choice([1, 1, 2, 3, 4]))
+            hist, dims = _history(rng, probe, rng.choice([1, 1, 2, 3, 4]), DIMS[len(jobs) % len(DIMS)])
             jobs.append({'kind': 'history', 'pid': p, 'klass': klass, 'probe': probe, 'history': hist, 'dims': dims,
                          'reuse_at': rng.choice([None, 0, 0, len(hist) - 1])})
     return jobs
